@@ -9,8 +9,8 @@
 (* every phase, so that the molar enthalpy is exactly                      *)
 (*      h(i, ph, T) = c_i (T - T_ref) + Lat(ref_i -> ph)                   *)
 (* and the latent heat is the same at every temperature.  The stream is a  *)
-(* phase x chemical table of exact rationals; temperature is d3 = 1000 (T  *)
-(* - T_ref), an integer; enthalpy flows are integers in 1e-3 kJ/hr.        *)
+(* phase x chemical table of exact rationals; temperature is d3 = Scale x (T *)
+(* - T_ref), an integer; enthalpy flows are integers in 1/Scale kJ/hr.     *)
 (*                                                                         *)
 (* A reaction is (nu, r, X, tag): stoichiometry normalised to -1 on the    *)
 (* reactant, conversion, and either tag = <<>> (phase-less: acts on the    *)
@@ -26,6 +26,8 @@
 (***************************************************************************)
 EXTENDS Fx, FiniteSets, TLC
 
+Scale == 100       \* fixed point: temperatures in 1/Scale K, enthalpy flows in 1/Scale kJ/hr, molar enthalpies in 1/Scale J/mol
+
 CONSTANTS NC,          \* number of chemicals
           Chem,        \* <<[Hf, MW, ref, Hvap, Hfus, c] ...>>
           Lib,         \* stoichiometries (vectors of rationals, not normalised)
@@ -35,7 +37,7 @@ CONSTANTS NC,          \* number of chemicals
 
 VARIABLES kind,        \* phases of the stream: "g", "l" (single-phase) or "gl", "gs", "ls", "gls" (multi-phase)
           m,           \* [ {"g","l","s"} -> [1..NC -> rational] ]
-          d3,          \* 1000 x (T - T_ref)
+          d3,          \* Scale x (T - T_ref)
           rs,          \* loaded reaction (set): [kind |-> "none"|"single"|"parallel"|"series", basis, items]
           added, path  \* model history: enthalpy ledger
 S == [kind |-> kind, m |-> m, d3 |-> d3, rs |-> rs]
@@ -60,18 +62,18 @@ Lat(i, ph) ==
          [] c.ref = "g" /\ ph = "s" -> -(c.Hvap + c.Hfus)
          [] c.ref = "s" /\ ph = "l" -> c.Hfus
          [] c.ref = "s" /\ ph = "g" -> c.Hfus + c.Hvap
-\* molar total enthalpy (formation + latent + sensible) in 1e-3 J/mol at temperature offset dd3
-HMol3(i, ph, dd3) == (Chem[i].Hf + Lat(i, ph)) * 1000 + Chem[i].c * dd3
+\* molar total enthalpy (formation + latent + sensible) in 1/Scale J/mol at temperature offset dd3
+HMol3(i, ph, dd3) == (Chem[i].Hf + Lat(i, ph)) * Scale + Chem[i].c * dd3
 
 RECURSIVE SumOver(_, _)
 SumOver(F(_), set) == IF set = {} THEN Zero ELSE LET x == CHOOSE y \in set : TRUE IN RAdd(F(x), SumOver(F, set \ {x}))
 Cells == Phs \X Chems
-\* total enthalpy flow including formation, 1e-3 kJ/hr (rational)
+\* total enthalpy flow including formation, 1/Scale kJ/hr (rational)
 Hnet3(s) == SumOver(LAMBDA pc : RMul(s.m[pc[1]][pc[2]], R(HMol3(pc[2], pc[1], s.d3))), Cells)
 \* heat capacity flow, kJ/hr/K (rational)
 CFlow(mm) == SumOver(LAMBDA pc : RMul(mm[pc[1]][pc[2]], R(Chem[pc[2]].c)), Cells)
 \* formation + latent part only
-HForm3(mm) == SumOver(LAMBDA pc : RMul(mm[pc[1]][pc[2]], R((Chem[pc[2]].Hf + Lat(pc[2], pc[1])) * 1000)), Cells)
+HForm3(mm) == SumOver(LAMBDA pc : RMul(mm[pc[1]][pc[2]], R((Chem[pc[2]].Hf + Lat(pc[2], pc[1])) * Scale)), Cells)
 
 ---------------------------------------------------------------------------
 (* reactions *)
@@ -109,23 +111,23 @@ ApplySet(set, k, mm) == IF set.kind = "parallel" THEN TAdd(mm, ParDelta(set.item
 NonNegT(mm) == \A ph \in Phs, i \in Chems : ~RLt(mm[ph][i], Zero)
 
 \* heat released to the stream's Hnet ledger when the set reacts isothermally, by the DEFINITION (valid when the
-\* definition's assumptions hold: T = T_ref and every participant in its tagged / reference phase); 1e-3 kJ/hr
+\* definition's assumptions hold: T = T_ref and every participant in its tagged / reference phase); 1/Scale kJ/hr
 RECURSIVE HeatSeries(_, _, _, _)
 HeatSeries(items, k, mm, basis) ==
   IF items = <<>> THEN Zero
-  ELSE RAdd(RMul(RMul(DH(Head(items), basis), Seen(Head(items), k, mm, basis)), R(1000)),
+  ELSE RAdd(RMul(RMul(DH(Head(items), basis), Seen(Head(items), k, mm, basis)), R(Scale)),
             HeatSeries(Tail(items), k, Apply1(Head(items), k, mm), basis))
 RECURSIVE HeatParallel(_, _, _, _)
 HeatParallel(items, k, mm, basis) ==
   IF items = <<>> THEN Zero
-  ELSE RAdd(RMul(RMul(DH(Head(items), basis), Seen(Head(items), k, mm, basis)), R(1000)), HeatParallel(Tail(items), k, mm, basis))
+  ELSE RAdd(RMul(RMul(DH(Head(items), basis), Seen(Head(items), k, mm, basis)), R(Scale)), HeatParallel(Tail(items), k, mm, basis))
 HeatByDefinition(set, k, mm) == IF set.kind = "parallel" THEN HeatParallel(set.items, k, mm, set.basis) ELSE HeatSeries(set.items, k, mm, set.basis)
 \* the definition's assumptions
 InDefinitionPhase(it, k) == \A i \in Participants(it) : PhaseIn(it, k, i) = (IF Tagged(it) THEN it.tag[i] ELSE Chem[i].ref)
 DefinitionApplies(s) == s.d3 = 0 /\ \A j \in DOMAIN s.rs.items : InDefinitionPhase(s.rs.items[j], s.kind)
 
-\* the temperature after an adiabatic reaction with heat input Q (kJ/hr): 1000 (T' - T_ref) as a rational
-AdiabaticD3(s, mm, Q) == RDiv(RSub(RAdd(Hnet3(s), R(Q * 1000)), HForm3(mm)), CFlow(mm))
+\* the temperature after an adiabatic reaction with heat input Q (kJ/hr): Scale (T' - T_ref) as a rational
+AdiabaticD3(s, mm, Q) == RDiv(RSub(RAdd(Hnet3(s), R(Q * Scale)), HForm3(mm)), CFlow(mm))
 
 ---------------------------------------------------------------------------
 WellFormed(s) == /\ PhasesOf(s.kind) # {}
@@ -149,7 +151,7 @@ Pre(s, op, a) ==
                            /\ RLt(Zero, CFlow(ApplySet(s.rs, s.kind, s.m)))
     [] OTHER -> FALSE
 
-Round(q) == (2 * q[1] + q[2]) \div (2 * q[2])       \* nearest integer (q[2] > 0)
+Round(q) == (q[1] + q[2] \div 2) \div q[2]       \* nearest integer (q[2] > 0)
 Post(s, op, a) ==
   CASE op = "set_feed" -> [s EXCEPT !.kind = a.kind, !.m = a.m, !.d3 = a.d3]
     [] op = "load" -> [s EXCEPT !.rs = a.set]
@@ -160,7 +162,7 @@ Post(s, op, a) ==
 \* |o - q| <= tol for an integer o and a rational q
 NearQ(o, q, tol) == Abs(o * q[2] - q[1]) <= tol * q[2]
 Ceil(q) == -((-q[1]) \div q[2])
-\* e.obs: Hnet0, Hnet1 (1e-3 kJ/hr, read from the real stream before / after), dH (list, 1e-3 J per mol or g), T_same
+\* e.obs: Hnet0, Hnet1 (1/Scale kJ/hr, read from the real stream before / after), dH (list, 1/Scale J per mol or g), T_same
 Judge(s, e) ==
   LET a == e.a
       u == e.post
@@ -169,9 +171,9 @@ Judge(s, e) ==
   ELSE IF e.op \in {"set_feed", "load"} THEN (IF u # exp THEN "frame" ELSE "ok")
   ELSE IF e.op = "dH" THEN
        IF u # s THEN "frame"
-       ELSE IF ~NearQ(e.obs.dH, RMul(DH(s.rs.items[a.j], s.rs.basis), R(1000)), 1) THEN "dH.value" ELSE "ok"
+       ELSE IF ~NearQ(e.obs.dH, RMul(DH(s.rs.items[a.j], s.rs.basis), R(Scale)), 1) THEN "dH.value" ELSE "ok"
   ELSE \* react / adiabatic
-       LET tolv == 2 + Ceil(CFlow(exp.m)) IN       \* the logged temperature is rounded to 1e-3 K
+       LET tolv == 2 + Ceil(CFlow(exp.m)) IN       \* the logged temperature is rounded to 1/Scale K
        IF u.m # exp.m THEN "react.material"
        ELSE IF u.kind # s.kind \/ u.rs # s.rs THEN "frame"
        \* the enthalpy the real stream reports is the model's (formation, latent, sensible) at every step
@@ -181,7 +183,7 @@ Judge(s, e) ==
             ELSE IF ~NearQ(e.obs.Hnet1, Hnet3(u), tolv) THEN "hnet.after"
             ELSE IF DefinitionApplies(s) /\ ~NearQ(e.obs.Hnet1 - e.obs.Hnet0, HeatByDefinition(s.rs, s.kind, s.m), 2) THEN "isothermal.heat_of_reaction"
             ELSE "ok"
-       ELSE IF Abs(e.obs.Hnet1 - (e.obs.Hnet0 + a.Q * 1000)) > 2 + Ceil(CFlow(exp.m)) \div 100 THEN "adiabatic.balance"
+       ELSE IF Abs(e.obs.Hnet1 - (e.obs.Hnet0 + a.Q * Scale)) > 2 + Ceil(CFlow(exp.m)) \div 100 THEN "adiabatic.balance"
             ELSE IF ~NearQ(u.d3, AdiabaticD3(s, exp.m, a.Q), 2) THEN "adiabatic.temperature"
             ELSE "ok"
 Legal(s) == WellFormed(s) /\ (s.rs.kind = None \/ SetOK(s.rs))
@@ -231,7 +233,7 @@ HeatOfReaction == [][Len(path') > Len(path) /\ path'[Len(path')].op = "react" /\
                       => RSub(Hnet3(S'), Hnet3(S)) = HeatByDefinition(rs, kind, m)]_vars
 \* an adiabatic reaction with heat input Q closes the balance up to the rounding of the temperature
 AdiabaticBalance == [][Len(path') > Len(path) /\ path'[Len(path')].op = "adiabatic"
-                        => RLeq(RAbs(RSub(Hnet3(S'), RAdd(Hnet3(S), R(path'[Len(path')].a.Q * 1000)))), CFlow(m'))]_vars
+                        => RLeq(RAbs(RSub(Hnet3(S'), RAdd(Hnet3(S), R(path'[Len(path')].a.Q * Scale)))), CFlow(m'))]_vars
 \* the weight-basis heat of reaction is the molar one per unit mass of reactant
 BasisConsistent == rs.kind # None => \A j \in DOMAIN rs.items :
                      RMul(DH(rs.items[j], "wt"), R(Chem[rs.items[j].r].MW)) = DH(rs.items[j], "mol")
